@@ -14,7 +14,7 @@
   OPEN (named): lifting the one-step lemmas to every reachable state through the re-entrant FD propagation
   loop; decided by the correspondence — probes after every goal of every branch on the real engine.
 -/
-import PvModel.Proofs.TreeAux
+import PvModel.Proofs.Tree
 import PvModel.Proofs.Stream
 import PvModel.Model.Goals
 namespace Pv
@@ -140,6 +140,129 @@ theorem C22_branch {K : Type} (defs : K → State → State × Goal State K) (to
     (pf : Nat) (A B : Goal State K) (st : State) :
     start defs top pf (.alt A B) st = Strm.mplus (start defs top pf A st) (.delay (start defs top pf B st)) := by
   simp only [start]
+
+/-! ### the lifecycle invariant on EVERY reachable state of a pure tree program -/
+
+theorem cnt_diseqResult (ord : Order) (st st' : State) (r : Option (Option (Subst × Ext1)))
+    (hn : (st.store.map (·.1)).Nodup) (hlt : ∀ p ∈ st.store, p.1 < st.nextId) (h : Cnt st)
+    (hr : diseqResult ord st r = .ok st') : Cnt st' := by
+  cases r with
+  | none => simp [diseqResult] at hr
+  | some r =>
+    cases r with
+    | none => simp only [diseqResult, Res.ok.injEq] at hr; subst hr; exact h
+    | some q =>
+      obtain ⟨σ', e⟩ := q
+      simp only [diseqResult] at hr
+      by_cases he : e.isEmpty = true
+      · simp [he] at hr
+      · simp only [he, Bool.false_eq_true, if_false, Res.ok.injEq] at hr
+        subst hr
+        exact C22_with_new ord st _ hn hlt h
+
+theorem cnt_snapStep (rc : State → Res State) (ord : Order) (st st' : State) (p : Nat × Cst)
+    (ht : TreeOnly st) (hi : IdsOK st) (h : Cnt st) (hr : snapStep rc ord st p = .ok st') : Cnt st' := by
+  unfold snapStep at hr
+  rcases hc : st.takeConstraint p.1 with ⟨st1, oc⟩
+  rw [hc] at hr
+  have h1 : Cnt st1 := by
+    have := C22_take st p.1 hi.1 h
+    rw [hc] at this; exact this
+  cases oc with
+  | none => simp only [Res.ok.injEq] at hr; subst hr; exact h1
+  | some c =>
+    obtain ⟨ps, rfl, _, _, i1, _⟩ := take_spec ht hi hc
+    simp only [runCst_diseq, runDiseq_eq] at hr
+    exact cnt_diseqResult ord st1 st' _ i1.1 i1.2 h1 hr
+
+theorem cnt_loop (rc : State → Res State) {ord : Order} (ho : OrderOK ord) :
+    ∀ (snap : List (Nat × Cst)) (st st' : State), Solved st.σ → TreeOnly st → IdsOK st → Cnt st →
+      State.runSnapshot rc ord st snap = .ok st' → Cnt st' := by
+  intro snap
+  induction snap with
+  | nil =>
+    intro st st' _ _ _ h hr
+    rw [runSnapshot_eq] at hr
+    simp only [List.foldl_nil, Res.ok.injEq] at hr
+    subst hr; exact h
+  | cons p rest ih =>
+    intro st st' hs ht hi h hr
+    rw [runSnapshot_eq, List.foldl_cons] at hr
+    have e : ((Res.ok st).bind fun st => snapStep rc ord st p) = snapStep rc ord st p := rfl
+    rw [e] at hr
+    obtain ⟨sok, _, _⟩ := snapStep_spec rc ho hs ht hi p
+    cases hstep : snapStep rc ord st p with
+    | ok st1 =>
+      rw [hstep, ← runSnapshot_eq] at hr
+      have a := sok st1 hstep
+      exact ih st1 st' (by rw [a.sig]; exact hs) a.tree a.ids (cnt_snapStep rc ord st st1 p ht hi h hstep) hr
+    | fail => rw [hstep, foldl_bind_fail] at hr; cases hr
+    | fuel => rw [hstep, foldl_bind_fuel] at hr; cases hr
+    | panic s => rw [hstep, foldl_bind_panic] at hr; cases hr
+
+theorem cnt_unify {ord : Order} (ho : OrderOK ord) {st st' : State} (hg : Good st) (h : Cnt st) (u v : Term)
+    (hr : st.unify ord u v = .ok st') : Cnt st' := by
+  obtain ⟨hs, ht, hi⟩ := hg
+  unfold State.unify at hr
+  cases hu : unifyF unifyFuel st.σ [] u v with
+  | none => simp [hu] at hr
+  | some r =>
+    cases r with
+    | none => simp [hu] at hr
+    | some q =>
+      obtain ⟨σ', e⟩ := q
+      simp only [hu] at hr
+      obtain ⟨s', _, _⟩ := unifyF_sound _ _ _ _ _ _ _ hs hu
+      generalize hst1 : ({ st with σ := σ' } : State) = st1 at hr
+      have hσ1 : st1.σ = σ' := by subst hst1; rfl
+      have ht1 : TreeOnly st1 := by subst hst1; exact ht
+      have hi1 : IdsOK st1 := by subst hst1; exact hi
+      have hc1 : Cnt st1 := by subst hst1; exact h
+      unfold State.processExtension at hr
+      rw [runConstraintsF_succ] at hr
+      obtain ⟨lok, _, _⟩ :=
+        loop_spec (State.runConstraintsF ord State.rcFuel) ho (ord.cs st1.store) st1 (by rw [hσ1]; exact s') ht1 hi1
+      cases hl : State.runSnapshot (State.runConstraintsF ord State.rcFuel) ord st1 (ord.cs st1.store) with
+      | ok st2 =>
+        have a := lok st2 hl
+        have c2 : Cnt st2 := cnt_loop _ ho _ st1 st2 (by rw [hσ1]; exact s') ht1 hi1 hc1 hl
+        rw [hl] at hr
+        simp only [Res.bind, processExtensionFd_tree ord st2 e a.tree.2, Res.ok.injEq] at hr
+        subst hr
+        exact c2
+      | fail => rw [hl] at hr; simp [Res.bind] at hr
+      | fuel => rw [hl] at hr; simp [Res.bind] at hr
+      | panic s => rw [hl] at hr; simp [Res.bind] at hr
+
+/-- one posting step keeps the lifecycle invariant on good tree states -/
+theorem C22_step_tree (ord : Order) (ho : OrderOK ord) (st st' : State) (a : TAtom) (hg : Good st) (h : Cnt st)
+    (hr : postAtom ord st a = .ok st') : Cnt st' := by
+  cases a with
+  | eq u v => exact cnt_unify ho hg h u v hr
+  | neq u v =>
+    simp only [postAtom, disunify_eq] at hr
+    exact cnt_diseqResult ord st st' _ hg.2.2.1 hg.2.2.2 h hr
+
+/-- THE INVARIANT ON EVERY REACHABLE STATE (pure tree programs): however many ==/!= atoms are posted, in any
+    order, under any hash-iteration order, the state reached has seen exactly as many `with_constraint`
+    calls as `take_constraint` calls plus the constraints it holds -/
+theorem C22_count_tree (ord : Order) (ho : OrderOK ord) (n : Nat) : ∀ (as : List TAtom) (st st' : State),
+    Good st → Cnt st → postAll ord st as = .ok st' → Cnt st'
+  | [], st, st', _, h, hr => by simp only [postAll, Res.ok.injEq] at hr; subst hr; exact h
+  | a :: as, st, st', hg, h, hr => by
+    simp only [postAll] at hr
+    cases hp : postAtom ord st a with
+    | ok st1 =>
+      rw [hp] at hr
+      have g1 := (postAtom_ok ord ho st st1 a hg hp).1
+      exact C22_count_tree ord ho n as st1 st' g1 (C22_step_tree ord ho st st1 a hg h hp) hr
+    | fail => rw [hp] at hr; simp [Res.bind] at hr
+    | fuel => rw [hp] at hr; simp [Res.bind] at hr
+    | panic s => rw [hp] at hr; simp [Res.bind] at hr
+
+theorem C22_count_tree_init (ord : Order) (ho : OrderOK ord) (n : Nat) (as : List TAtom) (st' : State)
+    (hr : postAll ord (State.empty n) as = .ok st') : Cnt st' :=
+  C22_count_tree ord ho n as (State.empty n) st' (good_empty n) (C22_init n) hr
 
 section Examples
 open Term
